@@ -471,6 +471,33 @@ def r7_nonempty_message(rep, facts):
                     f'empty string', f"{facts.rel(fb.get('file'))}:{line}")
 
 
+def r10_item_spans_only(rep, facts):
+    """an error raised while decoding is located with the span the parser recorded for the key or item: the serde layer hands spans on, it does not make them"""
+    R = rep.rule('C15/R10', 'the serde layer locates its errors with spans the parser recorded (`.span()` of a key, item or value, handed on unchanged): no function of '
+                 'toml_edit::de builds a `Range<usize>` with a computed end point (arithmetic, a call, a literal) — a range computed there (from a decoded length, an offset, a min / max) is in the units '
+                 'of the decoded text, not of the source, and ends inside a character or outside the token for quoted or escaped spellings '
+                 '(private helpers are expanded at their uses, so a helper that computes the range is seen too)', floor=2)
+    n_span = 0
+    made = []
+    for d, b in sorted(facts.bodies.items()):
+        if not (d.startswith('toml_edit::de') or d.startswith('<toml_edit::de')) or '::test' in d or b.get('derived'):
+            continue
+        for n in walk(b['body']):
+            if n.get('k') == 'mcall' and n.get('name') == 'span':
+                n_span += 1
+            if n.get('k') == 'struct' and (n.get('path') or '').startswith('core::ops::range::Range') and 'usize' in (n.get('t') or 'usize'):
+                # `a.start..a.end` / `s..e` of values read as they are is the same span written out again; a computed end point is not
+                computed = any(x.get('k') in ('binary', 'mcall', 'call', 'lit', 'unary', 'cast') for fld in n.get('fields', []) for x in walk(fld.get('e', {})))
+                if computed:
+                    made.append((d, facts.loc(b, n)))
+    rep.check(R, 'toml_edit::de|span-sources', n_span >= 20, f'{n_span} `.span()` reads in toml_edit::de', f'only {n_span} `.span()` reads found in toml_edit::de: the query is broken')
+    for d, loc in made:
+        rep.bad(R, f'{d}|range-built', f'`{d}` builds a `Range<usize>` itself instead of handing on the span the parser recorded: the location of the error it is attached to '
+                f'is computed in the serde layer (decoded lengths and source offsets do not agree for quoted, escaped or multi-byte spellings)', loc)
+    if not made:
+        rep.ok(R, 'toml_edit::de|no-range-built', 'no Range is constructed in toml_edit::de')
+
+
 def rules(rep, facts):
     feats = set(facts.crates.get('toml_edit', {}).get('features', []))
     if 'toml_edit' not in facts.crates:
@@ -478,6 +505,7 @@ def rules(rep, facts):
     if 'serde' in feats:
         r1_span_attached(rep, facts)
         r2_keys(rep, facts)
+        r10_item_spans_only(rep, facts)
         if 'parse' in feats:
             r2c_source_kept(rep, facts)
     if 'parse' in feats:
